@@ -16,9 +16,13 @@ What is modelled (transcribed from the Go code as it is):
 * every durable state an operation passes through (`bases`): these, with any subset of zombies
   resurrected, are the crash images.
 
-What is abstracted: the byte encoding of records and batches (`codec.go`, Pebble's record framing:
-a reader yields the complete records of a file and reports an invalid tail — compared byte-wise by
-the harness, not proved), batch sequence numbers, payloads of entries (an opaque id).
+What is abstract HERE: a record is its height and an opaque payload id, a log is the list of its
+complete batches. The bytes are modelled next door and composed with this model by theorems:
+`Codec.lean` (record payloads, `codec.go`), `Batch.lean` (the batch layout of `encodeBatch`, its
+parsing by `applyEncodedBatch` / Pebble's `batchrepr`, the reader's silent skips, the watermark file);
+`Props.codec_model_composition`, `Props.log_bytes_refine_model`, `Props.watermark_model_composition`.
+Pebble's chunk framing inside the 32 KiB blocks of a log (a reader yields the complete records of a file
+and reports an invalid tail) is an assumption tested by the harness.
 
 Core Lean only: this file is linked into the driver executable.
 -/
